@@ -144,7 +144,8 @@ def _run_native(d, hs, res, per_timeout):
     env["CARGO_TARGET_DIR"] = os.path.join(d, "target-native")
     env["CARGO_PROFILE_RELEASE_DEBUG_ASSERTIONS"] = "false"
     pkg = [x for x in set(h.get("package", "") for h in hs) if x]
-    cmd = ["cargo", "test", "--release", "--lib", "--offline"] + (["-p", pkg[0]] if pkg else []) + ["--"] + [h["harness"] for h in hs]
+    feats = [x for x in set(h.get("features", "") for h in hs) if x]
+    cmd = ["cargo", "test", "--release", "--lib", "--offline"] + (["-p", pkg[0]] if pkg else []) + (["--features", feats[0]] if feats else []) + ["--"] + [h["harness"] for h in hs]
     res.cmds.append("(scratch copy of /repo + injected #[cfg(test)] module) cargo test --release --lib --offline -- %s" % " ".join(h["harness"] for h in hs))
     t0 = time.time()
     try:
